@@ -289,7 +289,67 @@ func (w *World) projectChain(ctx sdk.Context, chain string) J {
 		it.Close()
 	}
 
-	return J{"pool": pool, "bat": bats, "ss": sss, "cc": ccs, "cnt": cnt, "loss": loss, "votes": votes, "lnv": lnv, "sigs": sigsOut, "keys": keys}
+	return J{"pool": pool, "bat": bats, "ss": sss, "cc": ccs, "cnt": cnt, "loss": loss, "votes": votes, "lnv": lnv, "sigs": sigsOut, "keys": keys,
+		"q": w.projectQueries(ctx, chain)}
+}
+
+// projectQueries records what the relayer-facing gRPC queries answer in this state: the confirmations of every
+// stored outgoing tx (external address reported + who really signed) and, per validator, the unsigned txs.
+func (w *World) projectQueries(ctx sdk.Context, chain string) J {
+	k := w.K.Mhub2
+	cid := mhubtypes.ChainID(chain)
+	gid := []byte(w.Cfg.GravityId)
+	c := sdk.WrapSDKContext(ctx)
+	confs := []interface{}{}
+	for _, ss := range k.GetSignerSetTxs(ctx, cid) {
+		res, err := k.SignerSetTxConfirmations(c, &mhubtypes.SignerSetTxConfirmationsRequest{SignerSetNonce: ss.Nonce, ChainId: chain})
+		if err != nil || len(res.Signatures) == 0 {
+			continue
+		}
+		l := []interface{}{}
+		for _, sg := range res.Signatures {
+			l = append(l, []interface{}{w.N.Name(sg.ExternalSigner), w.signerOf(ss.GetCheckpoint(gid), sg.Signature)})
+		}
+		confs = append(confs, J{"tx": J{"t": "ss", "n": unum(ss.Nonce)}, "list": l})
+	}
+	k.IterateOutgoingTxsByType(ctx, cid, mhubtypes.BatchTxPrefixByte, func(_ []byte, otx mhubtypes.OutgoingTx) bool {
+		b := otx.(*mhubtypes.BatchTx)
+		res, err := k.BatchTxConfirmations(c, &mhubtypes.BatchTxConfirmationsRequest{BatchNonce: b.BatchNonce, ExternalTokenId: b.ExternalTokenId, ChainId: chain})
+		if err != nil || len(res.Signatures) == 0 {
+			return false
+		}
+		l := []interface{}{}
+		for _, sg := range res.Signatures {
+			l = append(l, []interface{}{w.N.Name(sg.ExternalSigner), w.signerOf(b.GetCheckpoint(gid), sg.Signature)})
+		}
+		confs = append(confs, J{"tx": J{"t": "bat", "tok": w.ExtTokenName(chain, b.ExternalTokenId), "n": unum(b.BatchNonce)}, "list": l})
+		return false
+	})
+	unsigned := J{}
+	for _, vc := range w.Cfg.Vals {
+		addr := w.N.Acct(vc.Name).Addr.String()
+		u := J{"ok": true, "ss": []interface{}{}, "bat": []interface{}{}}
+		if res, err := k.UnsignedSignerSetTxs(c, &mhubtypes.UnsignedSignerSetTxsRequest{Address: addr, ChainId: chain}); err == nil {
+			l := []interface{}{}
+			for _, ss := range res.SignerSets {
+				l = append(l, unum(ss.Nonce))
+			}
+			u["ss"] = l
+		} else {
+			u["ok"] = false
+		}
+		if res, err := k.UnsignedBatchTxs(c, &mhubtypes.UnsignedBatchTxsRequest{Address: addr, ChainId: chain}); err == nil {
+			l := []interface{}{}
+			for _, b := range res.Batches {
+				l = append(l, []interface{}{w.ExtTokenName(chain, b.ExternalTokenId), unum(b.BatchNonce)})
+			}
+			u["bat"] = l
+		} else {
+			u["ok"] = false
+		}
+		unsigned[vc.Name] = u
+	}
+	return J{"conf": confs, "unsigned": unsigned}
 }
 
 // TrackedAccounts lists the account names whose balances are projected.
